@@ -386,7 +386,8 @@ def finish(res, level="other", explanation="", checker_cmd=None,
     for i in res.inst:
         if i["verdict"] == REFUTED:
             f = match_known(res.prop, dict(i["key"], detail=i.get("detail") or "",
-                                           rule=i.get("rule") or ""), known)
+                                           rule=i.get("rule") or "",
+                                           witness=json.dumps(i.get("witness"), sort_keys=True)), known)
             if f:
                 kf.setdefault(f["id"], (f, []))[1].append(i)
             else:
